@@ -2,6 +2,21 @@ import contextlib
 import signal
 from . import ConductorAbort
 
+
+
+class _Abort(ConductorAbort):
+    """
+    The abort as raised by the signal handler. The interpreter re-creates an
+    exception that passes through some of its internals from its message alone
+    (`type(e)(str(e))`, e.g., while it builds an `Enum` class - in a COND file or
+    in a module that is being imported); the generated error classes accept no
+    positional argument, so the abort would turn into a `TypeError`.
+    """
+
+    def __init__(self, *_args, **kwargs):
+        super().__init__(**kwargs)
+
+
 # While greater than zero, an abort request is remembered instead of being
 # raised right away (see `defer_abort()`).
 _defer_depth = 0
@@ -37,7 +52,7 @@ def _terminate_handler(sig, frame):
         _abort_pending = True
         return
     _abort_raised = True
-    raise ConductorAbort()
+    raise _Abort()
 
 
 @contextlib.contextmanager
@@ -57,7 +72,7 @@ def defer_abort():
         if _defer_depth == 0 and _abort_pending:
             _abort_pending = False
             _abort_raised = True
-            raise ConductorAbort()
+            raise _Abort()
 
 
 def raise_if_abort_requested():
@@ -66,4 +81,4 @@ def raise_if_abort_requested():
     even if the exception raised by the signal handler was lost.
     """
     if _abort_requested and _defer_depth == 0:
-        raise ConductorAbort()
+        raise _Abort()
